@@ -65,7 +65,16 @@ def main():
         rep.cov["axioms_used"] = axioms
         for e in errors:
             rep.broken("proof:" + e["file"], "theorem file %s no longer checks" % e["file"], e)
-        mod.run(rep, tier, seed, scratch)
+        from .timebox import Hang
+        try:
+            mod.run(rep, tier, seed, scratch)
+        except Hang as h:
+            # the implementation spins on this input: nothing after it could be explored
+            rep.cov["obligations"] += 1
+            rep.failure("hang:" + h.where.split()[-1].strip("()"),
+                        "%s did not return within %d s on this input (the model terminates by construction; every run of the "
+                        "pinned tree takes a fraction of that)" % (h.where, h.seconds),
+                        {"kind": "hang", "where": h.where, "case": h.case})
         return rep.finish()
     finally:
         shutil.rmtree(scratch, ignore_errors=True)
